@@ -769,6 +769,9 @@ func TestC15_ScriptedDeviations(t *testing.T) {
 			} else {
 				sc = tlsx.AutoServer(p, p.RSASrv, "s"+seed)
 			}
+			// (a Config that is also used for dialing may allow renegotiation as a client: that setting is none of the
+			// server role's business)
+			sc.Renegotiation = gmtls.RenegotiationSupport((d.K / 5) % 3)
 			certless := false
 			if clientAuth {
 				// the certificate-requesting policies in turn; under the two that only ask, every third scripted client has no
